@@ -50,6 +50,7 @@ type cOp struct {
 	F    int      `json:"f"` // 1-based index into the header's filter list
 	Into int      `json:"into"`
 	Reps int      `json:"reps"` // hot mode: the operation is made this many times in a row (0/1 = once)
+	Bar  int      `json:"bar"`  // free mode: before this operation the goroutine waits at barrier number Bar (>0) for all the others
 }
 
 type cFilter struct {
@@ -691,6 +692,19 @@ func runFree(u *cUniverse, seg *cSegment, nslots int, timeout time.Duration) boo
 	var wg sync.WaitGroup
 	start := make(chan struct{})
 	var live atomic.Int32
+	nbar := 0
+	for _, p := range seg.progs {
+		for _, c := range p {
+			if c.Bar > nbar {
+				nbar = c.Bar
+			}
+		}
+	}
+	barCnt := make([]atomic.Int32, nbar+1)
+	barCh := make([]chan struct{}, nbar+1)
+	for k := range barCh {
+		barCh[k] = make(chan struct{})
+	}
 	for g := 0; g < n; g++ {
 		wg.Add(1)
 		go func(g int) {
@@ -716,6 +730,16 @@ func runFree(u *cUniverse, seg *cSegment, nslots int, timeout time.Duration) boo
 						return
 					}
 					runtime.Gosched()
+				}
+				if c.Bar > 0 {
+					if int(barCnt[c.Bar].Add(1)) == n {
+						close(barCh[c.Bar])
+					} else {
+						select {
+						case <-barCh[c.Bar]:
+						case <-time.After(20 * time.Second): // a goroutine died on the way: go on alone
+						}
+					}
 				}
 				rec.evs = append(rec.evs, opEvent("Start", g+1, i+1, c, keys))
 				rep, made := u.exec(c, reg, mine[g])
@@ -1011,8 +1035,26 @@ func cmdConcurrent(args []string) {
 		if v := os.Getenv("VERIF_GOROUTINES"); v != "" {
 			ng, _ = strconv.Atoi(v)
 		}
-		// objects: certificates of every family, all CRLs and OCSP responses
-		objs := pickObjects(rng, c, 40)
+		// objects: the cover set (VERIF_COVER: every lint judges on one of them; computed by another process, this one is cold),
+		// certificates of every family, all CRLs and OCSP responses
+		var objs []*Target
+		ncover := 0
+		if p := os.Getenv("VERIF_COVER"); p != "" {
+			var ids []string
+			if b, err := os.ReadFile(p); err == nil && json.Unmarshal(b, &ids) == nil {
+				byID := map[string]*corpus.Obj{}
+				for _, o := range c.Certs {
+					byID[o.ID] = o
+				}
+				for _, id := range ids {
+					if o := byID[id]; o != nil {
+						objs = append(objs, fromObj(o))
+					}
+				}
+			}
+			ncover = len(objs)
+		}
+		objs = append(objs, pickObjects(rng, c, 40)...)
 		for _, o := range c.CRLs {
 			objs = append(objs, fromObj(o))
 		}
@@ -1023,6 +1065,19 @@ func cmdConcurrent(args []string) {
 		var slotsOf []int
 		for r := 0; r < rounds; r++ {
 			progs, nslots := freePrograms(rng, u, ng, nops, objs)
+			if r == 0 && ncover > 0 {
+				// the very first thing this process does: every goroutine lints cover objects on the global registry, each object by
+				// two goroutines, in different orders
+				// - all in the same order, each on its own parsed copy, leaving a barrier together before each object: whatever is built
+				// lazily on first use is then asked for by all goroutines at the same instant
+				for g := 0; g < ng; g++ {
+					var first []cOp
+					for k := 0; k < ncover; k++ {
+						first = append(first, cOp{Op: "Lint", O: 1 + k, K: "cert", R: 0, Bar: k + 1})
+					}
+					progs[g] = append(first, progs[g]...)
+				}
+			}
 			seg := &cSegment{mode: "free", progs: progs, objs: objs, info: ev.M{"round": r, "gomaxprocs": runtime.GOMAXPROCS(0)}}
 			if !runFree(u, seg, nslots, 120*time.Second) {
 				sum["hung"] = sum["hung"].(int) + 1
